@@ -1217,3 +1217,14 @@ func (s *UtxoStore) ExistCreditFromTx(rtx mwdb.ReadTransaction, hash *wire.Hash)
 	// skips the input when there is no credit
 	return false, iter.Error()
 }
+
+// ExistUnspent reports whether the wallet holds an unspent credit for the
+// given outpoint.
+func (s *UtxoStore) ExistUnspent(rtx mwdb.ReadTransaction, walletId string, outPoint *wire.OutPoint) (bool, error) {
+	nsUnspent := rtx.FetchBucket(s.bucketMeta.nsUnspent)
+	_, credKey, err := existsUnspent(nsUnspent, walletId, outPoint)
+	if err != nil {
+		return false, err
+	}
+	return credKey != nil, nil
+}
